@@ -55,7 +55,8 @@ def callStep (size : Nat) (o : WObj α) : CallRes α :=
 /-- `list(wnd)`; items that are not numbers make the first arithmetic on them raise -/
 def listStep : IterRes α → Except Err (List α)
   | .nums l => .ok l
-  | .opaque _ => .error .windowItems
+  | .opaque 0 => .ok []                      -- no item at all: an empty list like any other
+  | .opaque (_ + 1) => .error .windowItems
 
 /-- `overlap_add.list`:
       if wnd is not None:
@@ -154,6 +155,27 @@ def WKind.mk (k : WKind) (call : Nat → CallRes α) (iter : IterRes α) : WObj 
 section top
 variable [Add α] [Mul α] [Neg α] [Div α] [OfNat α 0] [OfNat α 1] [NatCast α] [LT α] [DecidableLT α] [DecidableEq α]
 
+/-- the window resolves to `n ≥ 1` items that are not numbers (`list(wnd)` itself does not fail) -/
+def opaqueItems (size : Nat) : PyWnd α → Option Nat
+  | .none => none
+  | .obj o =>
+    match callStep size o with
+    | .iterable (.opaque (n + 1)) => some (n + 1)
+    | _ => none
+
+/-- `overlap_add.list` with a window of `n ≥ 1` items that are not numbers: nothing fails before the
+    first ARITHMETIC on an item.  With normalisation that is `abs(item)` at the first `next`; without,
+    the length check comes first (ValueError), then `mul(item, x)` / `add(0., item * x)` on the first
+    block that has an item — and with no block at all nothing is ever computed: the `size - hop` zeros
+    of the flush, no exception.  (`hop = size`, no normalisation, a block: no addition touches an item and
+    `item * int` does not fail — what happens depends on the Python type of the samples; not tied.) -/
+def olaOpaque [OfNat α 0] (size hop : Nat) (normalize : Bool) (n : Nat) (blks : List (List α)) : Out α :=
+  if normalize then ⟨[], some (if hop = 0 then .maxEmpty else .windowItems)⟩
+  else if n ≠ size then ⟨[], some .windowSize⟩
+  else match blks with
+    | [] => ⟨pyDrop (List.replicate size (0 : α)) hop, none⟩
+    | b :: _ => if b.isEmpty then ⟨[], some .blockSize⟩ else ⟨[], some .windowItems⟩
+
 /-- `overlap_add.list(blks, size, hop, wnd, normalize)` consumed to its end, `wnd` any object -/
 def overlapAddListObj (blks : List (List α)) (size? hop? : Option Nat) (wnd : PyWnd α)
     (normalize : Bool) : Out α :=
@@ -161,12 +183,15 @@ def overlapAddListObj (blks : List (List α)) (size? hop? : Option Nat) (wnd : P
   | none => ⟨[], none⟩
   | some size =>
     let hop := hop?.getD size
-    match resolveOlaObj size wnd with
-    | .error e => ⟨[], some e⟩
-    | .ok w0 =>
-      match normWnd size hop normalize w0 with
+    match opaqueItems size wnd with
+    | some n => olaOpaque size hop normalize n blks
+    | none =>
+      match resolveOlaObj size wnd with
       | .error e => ⟨[], some e⟩
-      | .ok w1 => olaCore size hop w1 blks
+      | .ok w0 =>
+        match normWnd size hop normalize w0 with
+        | .error e => ⟨[], some e⟩
+        | .ok w1 => olaCore size hop w1 blks
 
 /-- `overlap_add.numpy` (the default strategy): `import numpy as np` is its first statement -/
 def overlapAddNumpyAbsent : Out α := ⟨[], some .numpyMissing⟩
